@@ -218,6 +218,9 @@ def coq_make(ctx, d, timeout=3000):
     for x in _dep_order(d):
         t = time.time()
         dirp = os.path.join(COQ, x)
+        if not os.path.isdir(dirp):
+            ctx.log("coq/%s does not exist (a generated library whose translator has not run yet?)" % x)
+            return False, out_all
         with open(os.path.join(dirp, ".lock"), "w") as lk:
             fcntl.flock(lk, fcntl.LOCK_EX)
             lines = []
